@@ -170,7 +170,8 @@ func dischargeAll(workDir string, obls []*Obligation, timeoutS int) {
 					return
 				}
 				script := o.vc.scriptOpt(o.Upto, o.Path, o.Goal, false, false)
-				if tag == "" && len(o.Cubes) >= 3 && os.Getenv("GOCV_NOCUBES") == "" {
+				if tag == "r" && len(o.Cubes) >= 3 && os.Getenv("GOCV_NOCUBES") == "" {
+					// second attempt: case split over the unit's top-level branch conditions first
 					if r := solveCubes(workDir, fmt.Sprintf("o%04d", i), script, o.Cubes, tmo); r != nil {
 						o.Result = r
 						o.Result.Script = filepath.Join(workDir, fmt.Sprintf("o%04d.smt2", i))
